@@ -81,7 +81,7 @@ def nontrivial(line):
         return body if len(seq) >= 2 and seq != "-" else None
     if cls == "striped":
         h = f.get("hist", "v")
-        return body if len(seq) > 32 and re.search(r"v;(k;)?c\d+.*v", h) else None
+        return body if len(seq) > 32 and re.search(r"v;(h;)?(k;)?c\d+.*v", h) else None
     if cls == "scores":
         rows = f.get("rows", "")
         return body if len(seq) > 32 and len(seq) >= len(rows.split("/")) else None
@@ -112,6 +112,8 @@ def histogram(line):
         keys.append("source=copy")
     if re.search(r"(^|;)s\d+", f.get("hist", "")):
         keys.append("live-scanner")
+    if re.search(r"(^|;)h;.*[cs]\d+", f.get("hist", "")):
+        keys.append("view-held-across-reconfiguration")
     if f.get("cls") == "dist" and re.search(r"(^|[,/])-?\d{4,}", f.get("rows", "")):
         keys.append("dist:score-range>1000")
     return keys
